@@ -233,7 +233,7 @@ func (s *Scenario) caseSx(sch []int) string {
 	for i, x := range sch {
 		ss[i] = strconv.Itoa(x)
 	}
-	return L("sched", s.headSx(), L("prefix", copsSx(s.Prefix)), L("writers", copsSx(s.Writers)), L("sch", strings.Join(ss, " ")))
+	return L("sched", s.headSx(), L("prefix", copsSx(s.Prefix)), L("writers", copsSx(s.Writers)), L(append([]string{"sch"}, ss...)...))
 }
 
 // ---------------------------------------------------------------- the cooperative scheduler
@@ -677,8 +677,8 @@ func (r *SchedRun) outcomeSx() string {
 	for _, e := range r.Events {
 		evs = append(evs, L(strconv.Itoa(e.w), e.label, e.status))
 	}
-	return L("outcome", L("res", strings.Join(res, " ")), L("commits", strings.Join(com, " ")), L("bal", strings.Join(bal, " ")),
-		L("txs", strings.Join(txs, " ")), L("logs", strings.Join(logs, " ")), L("ev", strings.Join(evs, " ")))
+	h := func(head string, xs []string) string { return L(append([]string{head}, xs...)...) }
+	return L("outcome", h("res", res), h("commits", com), h("bal", bal), h("txs", txs), h("logs", logs), h("ev", evs))
 }
 
 // ---------------------------------------------------------------- monitors on the implementation's outcome (independent of any model)
